@@ -24,6 +24,9 @@ var (
 	// Use errors.Is to check if returned error is ErrInvalidType.
 	ErrInvalidType = errors.New("invalid type")
 
+	// ErrUnexpectedData is wrapped and returned by DefaultParser if JSON input is not exactly one complete value.
+	ErrUnexpectedData = errors.New("unexpected data after value")
+
 	// ErrUnitDisabled is wrapped and returned by DefaultParser if RuleDisableUnit is present and input contains unit.
 	// Use errors.Is to check if returned error is ErrUnitDisabled.
 	ErrUnitDisabled = errors.New("unit disabled")
